@@ -103,9 +103,12 @@ func ParseVendorData(packet dhcpv6.DHCPv6) (*VendorData, error) {
 			}
 			vd.VendorName = iana.EnterpriseIDCienaCorporation.String()
 			vd.Model = v[1] + "-" + v[2]
-			duid := packet.(*dhcpv6.Message).Options.ClientID()
-			if enterpriseDUID, ok := duid.(*dhcpv6.DUIDEN); ok {
-				vd.Serial = string(enterpriseDUID.EnterpriseIdentifier)
+			// Only a (non-relay) message carries a client ID.
+			if msg, ok := packet.(*dhcpv6.Message); ok {
+				duid := msg.Options.ClientID()
+				if enterpriseDUID, ok := duid.(*dhcpv6.DUIDEN); ok {
+					vd.Serial = string(enterpriseDUID.EnterpriseIdentifier)
+				}
 			}
 			return &vd, nil
 		}
